@@ -25,7 +25,7 @@ import (
 // Reply is one server message: packages and how they are cut into packets.
 type Reply struct {
 	Pkgs []tdspkg.Pkg
-	Pack int // 0 one packet, 1 one package per packet, 2 cut in the middle of the body, 3 no EOM on the last packet (server stalls mid-message)
+	Pack int // 0 one packet, 1 one package per packet, 2 cut in the middle of the body, 3 no EOM on the last packet (server stalls mid-message), 4 one packet without EOM followed by an empty EOM packet
 }
 
 // Scenario is one login attempt.
@@ -133,9 +133,13 @@ func packets(r Reply) [][]byte {
 		}
 	}
 	pk := hx.Packetise(4, 0, body, cuts)
-	if r.Pack == 3 {
+	if r.Pack == 3 || r.Pack == 4 {
 		last := pk[len(pk)-1]
 		last[1] &^= hx.EOM
+	}
+	if r.Pack == 4 {
+		// the message ends with an empty EOM packet (what a sender does whose message fills its packets exactly)
+		pk = append(pk, hx.Packet(4, hx.EOM, 0, 0, nil))
 	}
 	return pk
 }
